@@ -34,7 +34,7 @@ def gen(ck, n, length, profile):
     return hs
 
 
-def run_generic(pid, profile, tier, seed, domains=None, extra_domains=(), n_quick=260, n_thorough=2000, rule=RULE):
+def run_generic(pid, profile, tier, seed, domains=None, extra_domains=(), n_quick=260, n_thorough=1500, rule=RULE):
     ck = Check(pid, tier, seed)
     build("dom_replay")
     doms = list(domains or domops.all_domains()) + list(extra_domains)
@@ -64,7 +64,7 @@ def run_generic(pid, profile, tier, seed, domains=None, extra_domains=(), n_quic
     if fam is not None:
         rdoms = [d for d in doms if d in ("intervals", "sparse_dbm", "split_dbm", "split_oct", "term_sdbm", "as_sdbm", "pack_sdbm",
                                          "fixed_tvpi", "lw_soct", "num_product", "pow_sdbm", "ref_split_dbm", "ref_split_oct", "bool_dbm")]
-        nf = 400 if tier == "quick" else 3000
+        nf = 400 if tier == "quick" else 2000
         for off in range(0, nf, 1000):
             hs = [fam(ck.rng, 500000 + off + i, params=ck.rng.choice(PARAMS)) for i in range(min(1000, nf - off))]
             fails, knowns, _ = domops.run_batch(ck, "fam%d" % off, hs, rdoms, box=box, univ=univ)
@@ -121,7 +121,7 @@ def run_generic(pid, profile, tier, seed, domains=None, extra_domains=(), n_quic
         rdoms2 = [d for d in doms if d in ("split_dbm", "sparse_dbm", "split_oct", "sdbm_ss", "sdbm_pt", "sdbm_ht", "sdbm_safe", "sdbm_big",
                                           "spdbm_safe", "soct_safe", "term_sdbm", "as_sdbm", "pack_sdbm", "bool_dbm", "pow_sdbm", "ref_split_dbm",
                                           "ref_split_oct", "num_product", "fixed_tvpi", "intervals")]
-        nfb = 400 if tier == "quick" else 2000
+        nfb = 400 if tier == "quick" else 1500
         for off in range(0, nfb, 1000):
             hs = [hist.bounds_diff_leq_history(ck.rng, 550000 + off + i, params=ck.rng.choice(PARAMS)) for i in range(min(1000, nfb - off))]
             fails, knowns, _ = domops.run_batch(ck, "fambd%d" % off, hs, rdoms2, box=box, univ=univ, timeout=3000)
